@@ -14,8 +14,11 @@ Proof.
   { unfold next_free_level. cbn [bind get].
     change (lvl2var (vstate vm lm (size vm))) with lm. by rewrite Hi. }
   rewrite (bind_ok _ _ _ _ _ E1). cbn [bind modify get].
-  unfold init_terminal, modify, ret. f_equal.
+  unfold init_terminal, modify, ret.
   unfold vstate, set, nvars.
   cbn [succ pred refc min_free ite_tab vars lvl2var last_len rctx roots tape trig].
-  Show.
-Abort.
+  unfold bind.
+  cbn [succ pred refc min_free ite_tab vars lvl2var last_len rctx roots tape trig].
+  rewrite !lookup_singleton. cbn [default].
+  rewrite delete_singleton, insert_singleton. reflexivity.
+Qed.
